@@ -138,6 +138,36 @@ def run(case):
                     v = f(int(a))
                     out.append([v, "1" if len(calls) > n0 else "0"])
             return out
+        if k == "lazy2":
+            force = case[1] in ("1", "true")
+            calls = []
+            with tempfile.TemporaryDirectory() as td:
+                path = os.path.join(td, "cache.pickle")
+
+                def bare(lst):
+                    calls.append(list(lst))
+                    return lst[0] * lst[0] + 1
+                f1 = cu.compute_lazy(path, force_to_compute=force)(bare)
+                f2 = cu.compute_lazy(path, force_to_compute=force)(bare)
+                box = [0]            # ONE argument object, mutated in place by the "m" operations
+                out = ["ok"]
+                for op in case[2:]:
+                    if op[0] == "del":
+                        if os.path.exists(path):
+                            os.remove(path)
+                        out.append("del")
+                        continue
+                    a = int(op[1])
+                    n0 = len(calls)
+                    if op[0] == "m":
+                        box[0] = a
+                        v = f1(box)
+                    elif op[0] == "c2":
+                        v = f2([a])
+                    else:
+                        v = f1([a])
+                    out.append([v, "1" if len(calls) > n0 else "0"])
+            return out
         if k == "scale":
             a, b, c, d, sh = [fl(x) for x in case[1:6]]
             return ["ok"] + [float(cu.scale(fl(v), a, b, c, d, sh)).hex() for v in case[6:]]
